@@ -22,7 +22,24 @@ func main() {
 		only := fs.String("only", "", "lemma name")
 		dump := fs.String("dump", "", "write failing queries to this directory")
 		fs.Parse(os.Args[2:])
-		os.Exit(cmdLemmas(*mod, *pkgp, *only, *dump))
+		code := cmdLemmas(*mod, *pkgp, *only, *dump)
+		cleanupScratch()
+		os.Exit(code)
+	case "check", "baseline":
+		fs := flag.NewFlagSet("check", flag.ExitOnError)
+		prop := fs.String("property", "", "property id")
+		tier := fs.String("tier", "quick", "quick or thorough")
+		fs.Parse(os.Args[2:])
+		if t := os.Getenv("VERIF_TIER"); t != "" && *tier == "" {
+			*tier = t
+		}
+		code := cmdCheck(*prop, *tier, os.Args[1] == "baseline")
+		cleanupScratch()
+		os.Exit(code)
+	case "replay":
+		code := cmdReplay(os.Args[2])
+		cleanupScratch()
+		os.Exit(code)
 	default:
 		fmt.Fprintln(os.Stderr, "unknown command", os.Args[1])
 		os.Exit(2)
@@ -48,7 +65,7 @@ func cmdLemmas(mod, pkgPath, only, dump string) int {
 	var all []OblResult
 	var mu sync.Mutex
 	var wg sync.WaitGroup
-	sem := make(chan struct{}, 8)
+	sem := make(chan struct{}, 4)
 	for _, l := range specs.Lemmas {
 		if only != "" && l.Name != only {
 			continue
